@@ -36,7 +36,11 @@ SPEC = 'spec/web'
 SPELL = {'dd': '..', 'd': '.', 'e': '', 'dir': 'sub', 'file': 'f.txt', 'miss': 'nope',
          'e1': '%2e%2e', 'e2': '%252e%252e', 'es': '..%2f..', 'bs': '..\\',
          'sib': 'www_evil', 'sec': 'secret.txt'}
-TOKENS = sorted(SPELL)
+BASE_TOKENS = sorted(SPELL)
+# exotic tokens (StaticPathOps.ExoticTokens): segments that cannot name anything - a NUL byte
+# survives the one level of decoding, an invalid UTF-8 escape, a name longer than NAME_MAX
+SPELL.update({'n0': '%00', 'fn': 'f.txt%00', 'nf': 'f%00.txt', 'dn': '..%00', 'xff': '%ff', 'long': 'a' * 300})
+EXOTIC_TOKENS = sorted(set(SPELL) - set(BASE_TOKENS))
 BAD_SPELL = {1: 'abc-', 2: '5', 3: '-', 4: '-xyz', 5: '2-x'}
 OUTSIDE_BODIES = ('gp_f', 'parent_f', 'secret', 'evil_f', 'list_gp', 'list_parent', 'list_evil', 'list_top')
 PATH_KEYS = ('k', 'mount', 'fe', 'n', 't1', 't2', 't3', 't4', 't5', 't6', 'status', 'body', 'leak')
@@ -281,7 +285,8 @@ def run_path_case(tree, apps, mount, fe, toks):
 
 def path_witness(mount, fe, toks, lines):
     return {'part': 'path', 'fe': fe, 'mount': mount, 'body': lines[1]['body'], 'status': lines[1]['status'],
-            'lead_empty': len(toks) >= 2 and toks[0] == 'e'}
+            'lead_empty': len(toks) >= 2 and toks[0] == 'e',
+            'nul': any(t in ('n0', 'fn', 'nf', 'dn') for t in toks)}
 
 
 # --------------------------------------------------------------------------
@@ -633,6 +638,7 @@ def run(tier, replay=None):
         # the defective variants must make TLC report a violated invariant (quick reads the same
         # verdicts from the `bad` variable of the pinned dumps below)
         jobs['teeth_parent'] = lambda: tlc.run_tlc(SPEC, 'StaticPath', 'MC_StaticPath_parent.cfg', workers=1, jvm_opts=JVM)
+        jobs['teeth_statprobe'] = lambda: tlc.run_tlc(SPEC, 'StaticPath', 'MC_StaticPath_statprobe.cfg', workers=1, jvm_opts=JVM)
         jobs['teeth_urlsplit'] = lambda: tlc.run_tlc(SPEC, 'StaticPath', 'MC_StaticPath_urlsplit.cfg', workers=1, jvm_opts=JVM)
         jobs['teeth_range'] = lambda: tlc.run_tlc(SPEC, 'Ranges', 'MC_Ranges_pinned.cfg', workers=1, jvm_opts=JVM)
     with ThreadPoolExecutor(max_workers=len(jobs)) as ex:
@@ -650,6 +656,9 @@ def run(tier, replay=None):
                 raise tlc.MachineryError('vacuous model: action %s never taken' % act)
     if set(pcases) != set(ppcases) or set(rcases) != set(rpcases):
         raise tlc.MachineryError('the variants of a model do not enumerate the same cases')
+    if 'C16.internal_error' not in {v[2] for v in ppcases.values()}:
+        raise tlc.MachineryError('the stat-probe variant of StaticPath.tla (NUL in the location -> 500) is no longer '
+                                 'flagged with C16.internal_error: the model lost its teeth')
     flagged = {v[2] for v in ppcases.values()} | {v[2] for v in rpcases.values()}
     for clause in ('C16.outside_root', 'C16.wrong_file', 'C16.internal_error', 'C16.range_header', 'C16.range_status',
                    'C16.range_bytes'):
@@ -691,7 +700,8 @@ def run(tier, replay=None):
         n_tlc_paths = len(ptraces)
         _tick('replay tlc paths')
         for i in range(2000 if quick else 20000):
-            toks = [rnd.choice(TOKENS) for _ in range(rnd.randint(4 if quick else 5, 6))]
+            toks = [rnd.choice(EXOTIC_TOKENS) if rnd.random() < 0.12 else rnd.choice(BASE_TOKENS)
+                    for _ in range(rnd.randint(4 if quick else 5, 6))]
             mount = rnd.choice(['/', '/static'])
             fe = rnd.choice(['http', 'direct'])
             lines = run_path_case(tree, apps, mount, fe, toks)
